@@ -457,6 +457,9 @@ func arrayMax(v any) (any, error) {
 		}
 	}
 
+	// the result is the extremal element itself, as for max_by: not its
+	// decimal conversion, which differs in type and, for a float, in digits
+	elem := a[0]
 	for _, i := range a[1:] {
 		d, ok := toDecimal(i)
 		if !ok {
@@ -468,10 +471,11 @@ func arrayMax(v any) (any, error) {
 
 		if d.Cmp(max).Greater() {
 			max = d
+			elem = i
 		}
 	}
 
-	return max, nil
+	return elem, nil
 }
 
 func arrayMin(v any) (any, error) {
@@ -513,6 +517,7 @@ func arrayMin(v any) (any, error) {
 		}
 	}
 
+	elem := a[0]
 	for _, i := range a[1:] {
 		d, ok := toDecimal(i)
 		if !ok {
@@ -524,10 +529,11 @@ func arrayMin(v any) (any, error) {
 
 		if d.Cmp(min).Less() {
 			min = d
+			elem = i
 		}
 	}
 
-	return min, nil
+	return elem, nil
 }
 
 func flatten(v any) any {
